@@ -1,7 +1,9 @@
 package main
 
 import (
+	"errors"
 	"fmt"
+	"os"
 	"regexp"
 	"strings"
 	"time"
@@ -121,6 +123,37 @@ func checkC12(c *Ctx) {
 			}
 		}
 	}
+	// the command line: -s KEY=VALUE given to the real binary (values may contain '=')
+	dir, derr := newScratch("c12cli")
+	if derr == nil {
+		defer os.RemoveAll(dir)
+		ncli := 40
+		if !c.Quick() {
+			ncli = 400
+		}
+		for i := 0; i < ncli; i++ {
+			R, av := GenFile(r, fc, "")
+			sw := map[string]string{"GAME": r.Pick([]string{"RUBY", "RUBY=2", "EMERALD", "=", "A=B=C"}), "LANG": r.Pick([]string{"EN", "DE=AT"})}
+			srcR, _ := RenderFile(R, Style{R: r, Layout: 0})
+			P, ws := DecorateFile(R, sw, r, true, true, true, false)
+			if len(ws) == 0 {
+				continue
+			}
+			srcP, _ := RenderFile(P, Style{R: r, Layout: i % 3})
+			o := Opts{Optimize: i%2 == 0, AutoVar: av, Switches: sw}
+			resR := Compile(srcR, o)
+			if resR.Err != nil {
+				continue
+			}
+			ccPath, _ := writeAutoVarConfig(dir, av)
+			args := []string{"-cc", ccPath, "-lm=false", fmt.Sprintf("-optimize=%v", o.Optimize), "-s", "GAME=" + sw["GAME"], "-s", "LANG=" + sw["LANG"]}
+			so, se, exit, to := RunBinary(c.Bin, srcP, args, 10*time.Second)
+			id := fmt.Sprintf("cli%d", i)
+			cases[id] = &PairCase{ID: id, Src1: srcP, Src2: srcR, Opts: o, R1: Result{Out: so, Err: errOrNil(exit != 0 || to, se)}, R2: resR, Wrappers: ws}
+			recs = append(recs, map[string]interface{}{"id": id, "out1": outLines(so), "out2": outLines(resR.Out),
+				"err1": exit != 0 || to, "err2": false, "wrappers": ws})
+		}
+	}
 	bad, states, ok := runPairCases(c, "Poryswitch", "pscases.ndjson", recs)
 	if !ok {
 		return
@@ -139,3 +172,10 @@ func checkC12(c *Ctx) {
 }
 
 func c12Key(pc *PairCase) string { return "" }
+
+func errOrNil(failed bool, msg string) error {
+	if failed {
+		return errors.New(strings.TrimSpace(msg))
+	}
+	return nil
+}
